@@ -159,6 +159,35 @@ def gumbelFitTruncated (xs : Array α) (phi : α) : FitRes α :=
   | .res .enohalt _ _ => .res .enoresult #[zero, zero]
   | .res st _ _ => .res st #[zero, zero]
 
+/-- `esl_gam_logpdf()` -/
+def gamLogpdf (x mu lambda tau : α) : α :=
+  let y := lambda * (x - mu)
+  if ltb y zero then negInf else
+  if eqb x mu && ltb tau one then posInf else
+  if eqb x mu && gtb tau one then negInf else
+  if eqb x mu && eqb tau one then log lambda else
+  ((tau * log lambda + (tau - one) * log (x - mu)) - logGamma tau) - y
+
+/-- negative log-likelihood of a data set in the variables `(log λ, log τ)` for a known `mu`, summed with the library's `logpdf`:
+    the Weibull one IS `wei_func`; the gamma and stretched-exponential analogues (test objectives of the differential run) -/
+def gamNllFunc (xs : Array α) (mu : α) (p : Array α) : α :=
+  let lambda := exp (p.getD 0 zero)
+  let tau := exp (p.getD 1 zero)
+  if !(gtb tau zero) then posInf else
+  Neg.neg (xs.foldl (fun acc x => acc + gamLogpdf x mu lambda tau) zero)
+
+def sxpNllFunc (xs : Array α) (mu : α) (p : Array α) : α :=
+  let tau := exp (p.getD 1 zero)
+  if !(gtb (one / tau) zero) then posInf else sxpFunc xs mu p
+
+/-- the data-dependent objective families of the driver's `cgd` op (`p[0] = mu`) -/
+def nllFamily (fam : String) (xs : Array α) (p : Array α) : Option (Array α → α) :=
+  match fam with
+  | "weinll" => some (weiFunc xs (p.getD 0 zero))
+  | "gamnll" => some (gamNllFunc xs (p.getD 0 zero))
+  | "sxpnll" => some (sxpNllFunc xs (p.getD 0 zero))
+  | _ => none
+
 /-- dispatcher for the driver -/
 def runFitCG (kind : String) (xs : Array α) (a : α) : Option (FitRes α) :=
   match kind with
